@@ -47,8 +47,8 @@ checks.update({
  "C03": dict(technique=FL_TECH + "; C03 = no inline complex schema at a schema-typed position below the top level + case-insensitive uniqueness of created names",
    text="model_checking (trace validation): on every successful full run TLC enumerates the schema-typed positions of the output and checks none holds an object-with-properties / allOf / tuple inline, and that every created name differs from every other definition name up to letter case (fold classes computed with strings.EqualFold).",
    note=FL_NOTE, ref="7/C03"),
- "C04": dict(technique=FL_TECH + "; C04 = outcome ok for every (bundle of W, option set)",
-   text="model_checking (trace validation): Flatten must return nil on every generated bundle of W under every option set (crashes and time-outs, confirmed in a fresh process, count as failures).",
+ "C04": dict(technique=FL_TECH + "; C04 = outcome ok for every (bundle of W, option set) and the result satisfies C01-C03 where they apply",
+   text="model_checking (trace validation): Flatten must return nil on every generated bundle of W under every option set (crashes and time-outs, confirmed in a fresh process, count as failures) and what it returns must satisfy C01 (every mode), C02 (Minimal/full) and C03 (full), evaluated by TLC on the same record.",
    note=FL_NOTE, ref="7/C04"),
  "C05": dict(technique=FL_TECH + "; C05 = remaining $refs canonical, C01, no $ref at all when the bundle's $ref graph (HasCycle in RefSem.tla) is acyclic, bytes equal on re-run",
    text="model_checking (trace validation): on every successful Expand run TLC computes the $ref graph of the input bundle and requires an output without any $ref when it is acyclic, canonical targets otherwise, C01, and byte-identical output of a second run from the files.",
